@@ -51,6 +51,10 @@ ASSUMPTIONS = [
 ITEM_TIMEOUT = {"quick": 240, "thorough": 900}
 
 
+def VIEWS_LAYOUT_ITEMS(it, tier):
+    return True
+
+
 def items(tier):
     b = BOUNDS[tier]
     out = []
